@@ -127,6 +127,34 @@ def _reach_blocks(b, start):
     return seen
 
 
+def _variant_edges(b, local, idx, depth=0):
+    """[(switch block, target)] taken when the enum value in `local` is variant number idx (followed through moves and `?`)"""
+    out = []
+    if depth > 3:
+        return out
+    for bi in b.live:
+        for st in b.blocks[bi]['stmts']:
+            if st['k'] != 'assign' or st['pl']['p']:
+                continue
+            rv = st['rv']
+            if rv['k'] == 'discr' and not rv['pl']['p'] and rv['pl']['l'] == local:
+                d = st['pl']['l']
+                for sbi in b.live:
+                    sw = b.blocks[sbi]['term']
+                    if sw['k'] == 'switch' and sw['op']['k'] in ('copy', 'move') and not sw['op']['pl']['p'] and sw['op']['pl']['l'] == d:
+                        if idx in sw['vals']:
+                            out.append((sbi, sw['targets'][sw['vals'].index(idx)]))
+                        elif len(sw['vals']) >= 1:
+                            out.append((sbi, sw['otherwise']))
+            elif rv['k'] == 'use' and rv['op']['k'] in ('copy', 'move') and not rv['op']['pl']['p'] and rv['op']['pl']['l'] == local:
+                out += _variant_edges(b, st['pl']['l'], idx, depth + 1)
+        t = b.blocks[bi]['term']
+        if t['k'] == 'call' and 'q' in t['callee'] and t['callee']['q'] == 'core::ops::try_trait::Try::branch' and t['args'] and \
+                t['args'][0]['k'] in ('copy', 'move') and not t['args'][0]['pl']['p'] and t['args'][0]['pl']['l'] == local and not t['dest']['p']:
+            out += _variant_edges(b, t['dest']['l'], idx, depth + 1)     # Err -> Break(1), Ok -> Continue(0)
+    return out
+
+
 def run(facts, cg):
     T = Terms(facts)
     instances, findings = [], []
@@ -190,6 +218,27 @@ def run(facts, cg):
                         if pty.get('adt') == 'core::option::Option' and (has_call(term, 'poll_next_unpin') or has_call(term, 'Stream::poll_next')) \
                                 and 0 in sw['vals']:
                             ends.append((sbi, sw['targets'][sw['vals'].index(0)]))
+            # the same test handed to a combinator: `item.unwrap_or(Err(UnexpectedEnd))`, `item.ok_or(UnexpectedEnd)` - the early
+            # end is what the error arm of the result does
+            for cbi, ct in b.calls():
+                if 'q' not in ct['callee'] or ct['dest']['p'] or not ct['args']:
+                    continue
+                name = callee_q(ct)
+                if not name.startswith('core::option::Option::') or name.split('::')[-1] not in ('unwrap_or', 'ok_or', 'ok_or_else', 'unwrap_or_else'):
+                    continue
+                src = simplify(T.of_operand(b, ct['args'][0]))
+                if not (has_call(src, 'poll_next_unpin') or has_call(src, 'Stream::poll_next')):
+                    continue
+                if name.endswith('::unwrap_or'):
+                    dflt = simplify(T.of_operand(b, ct['args'][1]))
+                    if not (isinstance(dflt, tuple) and dflt[0] == 'agg' and dflt[2] == 'Err'):
+                        continue
+                elif name.endswith('::unwrap_or_else'):
+                    continue
+                if b.lty(ct['dest']['l']).get('adt') != 'core::result::Result':
+                    continue
+                for e in _variant_edges(b, ct['dest']['l'], 1):
+                    ends.append(e)
             if ends:
                 n_sites['http-chunks'] += 1
                 classes = set()
